@@ -42,7 +42,7 @@ def run(ctx):
         F.check_no_dropping_adapters(ctx, "E7.adapters", P, ["SecretKey<C>::split_with_rng"])
         ret_ok = False
         for b_ in R.ok_blocks(f):
-            v_ = ev.exit_state[b_].get(0)
+            v_ = R.ok_value(ev.fn, ev, b_)
             if v_.op == "agg" and v_.a[1]:
                 x, steps = F.image_source(P, f, ev, v_.a[1][0])
                 # source: the Ok payload of split_secret(..)?
